@@ -755,6 +755,9 @@ def body_interp(case, ctx):
         kw = {}
     if use_log:
         kw["use_log"] = True
+    # a decoy call on the same grid object first (other data, other points, no derivative): whatever the grid remembers
+    # from it must not leak into the call that is checked
+    g.interpolate(q[::-1].copy() * 0.999 + 0.001 * q.mean(axis=0), (np.abs(vals[::-1]) * 0.5 + 0.25).copy(), **({"use_log": True} if use_log else {}))
     got = np.asarray(g.interpolate(q.copy(), vals.copy(), **kw), dtype=float)
     if got.shape != (len(q),):
         ctx.fail("interpolate-shape", f"{what}: {len(q)} points -> output shape {got.shape}")
